@@ -282,7 +282,7 @@ Proof.
 Qed.
 
 (* ------------------------------------------------------------------ the two repaired defects, on the model
-   (F-C24-1, fixed by 34f5e9d; F-C24-2, fixed by fec49c7): their witnesses now behave *)
+   (F-C24-1, fixed by 26fae1f; F-C24-2, fixed by 1f0a068): their witnesses now behave *)
 (* LIMIT 0 returns no row, whatever the input *)
 Lemma topk_limit0_empty_l : forall (A : Type) (cmp : A -> A -> comparison) rows,
   topk cmp 0 rows = TOk [].
@@ -294,7 +294,7 @@ Proof.
 Qed.
 
 (* a zero vector between two rows under `<=>`: its key is NULL, NULL sorts first, the other
-   rows follow in distance order (before 34f5e9d the answer was [1; 2; 3]: distance 2 before 0) *)
+   rows follow in distance order (before 26fae1f the answer was [1; 2; 3]: distance 2 before 0) *)
 Lemma cosine_zero_vector_fixed_l :
   let rows := [(1, [-2; 0]); (2, [0; 0]); (3, [1; 0])] in
   let q := [1; 0] in
